@@ -103,7 +103,7 @@ Proof.
 Qed.
 Lemma Mono_start s r c w f : Mono s (start_rec s r c w f).
 Proof.
-  unfold start_rec. set (x := getr s r). destruct (negb f && rsucc x); [apply Mono_refl|].
+  unfold start_rec. set (x := getr s r). destruct (negb f && rsucc x || rnil x); [apply Mono_refl|].
   destruct (negb f && is_some (rctx x) && negb (rexited x) && ctx_live s (rctx x)); [apply Mono_refl|]. cbn zeta.
   eapply Mono_trans; [apply Mono_stop_timer|]. eapply Mono_trans; [apply Mono_cancel_inst|]. eapply Mono_trans; [apply Mono_insts_app|].
   apply Mono_setr. cbn [rkey rlin rdata with_started].
@@ -195,7 +195,7 @@ Qed.
 Theorem Mono_step s e : Mono s (step repaired s e).
 Proof.
   destruct (ordinary e) eqn:O; [now apply Mono_ordinary|].
-  destruct e; try discriminate O; cbn [step]; [apply Mono_set_context | apply Mono_advance | apply Mono_cancel_root].
+  destruct e; try discriminate O; cbn [step]; [apply Mono_set_context | apply Mono_advance | apply Mono_cancel_root | mext].
 Qed.
 Theorem Mono_run es : forall s, Mono s (run repaired s es).
 Proof. induction es as [|e es IH]; intros s; [apply Mono_refl|]. cbn [run fold_left]. eapply Mono_trans; [apply Mono_step | apply IH]. Qed.
@@ -225,7 +225,7 @@ Proof.
 Qed.
 Lemma Kx_start s r c w f : Kx s (start_rec s r c w f).
 Proof.
-  unfold start_rec. destruct (negb f && rsucc (getr s r)); [apply Kx_refl|].
+  unfold start_rec. destruct (negb f && rsucc (getr s r) || rnil (getr s r)); [apply Kx_refl|].
   destruct (negb f && is_some (rctx (getr s r)) && negb (rexited (getr s r)) && ctx_live s (rctx (getr s r))); [apply Kx_refl|]. cbn zeta.
   eapply Kx_trans; [apply Kx_stop_timer|]. eapply Kx_trans; [apply Kx_cancel_inst|]. kext.
 Qed.
